@@ -15,12 +15,32 @@ REC_HEADER = " ".join(["#child_id", "chromosome", "position1", "position2", "tra
                        "transmitted_hap_father2", "transmitted_hap_mother1", "transmitted_hap_mother2",
                        "recombination_cost"])
 
-STRUCTURES = ["two_trios", "trio_single", "quartet_single", "trio_single_first", "quartet", "two_trios"]
 
 
 # ---------------------------------------------------------------------------------------- scenario
+STRUCTURES = ["two_trios", "trio_single", "quartet_single", "quartet", "two_trios", "trio_two_singles",
+              "three_singles", "two_trios_single", "trio_single"]
+NAME_POOLS = [
+    ["s1", "s10", "s1a", "s2", "S2", "s02", "s100", "s1_b"],          # shared prefixes, case, numeric order
+    ["zeta", "Alpha", "mid", "alpha", "omega", "Beta", "m", "zz"],     # sorting against role
+    ["NA12878", "NA12891", "NA12892", "HG002", "HG003", "HG004", "HG005", "NA1289"],
+    ["child", "mother", "father", "kid2", "dad2", "mum2", "other", "another"],   # role words used against their role
+]
+CHROM_POOLS = [["chrA", "chrB", "chrC"], ["2", "10", "X"], ["ctgB", "ctgA", "ctg_c"], ["chr10", "chr2", "chr1"]]
+ROLES = {
+    "two_trios": (["K1", "F1", "M1", "K2", "F2", "M2"], [("K1", "F1", "M1"), ("K2", "F2", "M2")]),
+    "trio_single": (["K1", "F1", "M1", "U1"], [("K1", "F1", "M1")]),
+    "trio_single_first": (["A0", "K1", "F1", "M1"], [("K1", "F1", "M1")]),
+    "quartet_single": (["K1", "K2", "F1", "M1", "U1"], [("K1", "F1", "M1"), ("K2", "F1", "M1")]),
+    "quartet": (["K1", "K2", "F1", "M1"], [("K1", "F1", "M1"), ("K2", "F1", "M1")]),
+    "trio_two_singles": (["K1", "F1", "M1", "U1", "U2"], [("K1", "F1", "M1")]),
+    "three_singles": (["U1", "U2", "U3"], []),
+    "two_trios_single": (["K1", "F1", "M1", "K2", "F2", "M2", "U1"], [("K1", "F1", "M1"), ("K2", "F2", "M2")]),
+}
+
+
 def make_spec(rng, force=None):
-    """A json-able description of one scenario + one option set (everything needed to replay it)."""
+    """A json-able description of one scenario (everything needed to rebuild its files)."""
     force = force or {}
     structure = force.get("structure") or rng.choice(STRUCTURES)
     spec = {
@@ -31,18 +51,36 @@ def make_spec(rng, force=None):
         "nreads": rng.choice([rng.randint(4, 9), rng.randint(10, 20), rng.randint(20, 32)]),
         "recomb_prob": rng.choice([0.0, 0.15, 0.25, 0.35]),
         "gt_error": rng.choice([0.08, 0.15, 0.25]),
+        # probability that a record gets wrong genotypes in two or more samples at once
+        "multi_change": rng.choice([0.0, 0.15, 0.3]),
         "gl": rng.random() < 0.5,
         "kinds": rng.choice([["snv"], ["snv"], ["snv", "ins", "del", "mnp"]]),
         "odd_records": rng.random() < 0.3,
         "read_len": rng.choice([[120, 380], [120, 380], [70, 170]]),
         # index of a chromosome on which every sample is homozygous ALT everywhere (nothing to phase), or None
         "all_hom_chrom": None,
-        # no read of any sample connects the two middle variants of a chromosome (at least two phase sets
-        # unless genetic haplotyping merges them)
+        # no read of any sample connects the two middle variants of a chromosome
         "gap": rng.random() < 0.45,
+        # sample / chromosome names: "role" (K1, F1, ...) or drawn from a pool and shuffled against their role
+        "names": rng.choice(["role", "pool", "pool"]),
+        "chrom_pool": rng.randrange(len(CHROM_POOLS)),
+        "ped_shuffle": rng.random() < 0.5,          # PED lines in another order than the VCF columns
+        "ped_extra": rng.random() < 0.15,           # a PED line about individuals that are not in the VCF
+        "two_bams": rng.random() < 0.3,             # reads split over two BAM files (source_id 0 / 1)
+        "shared_read_names": rng.random() < 0.3,    # the same read names in every family and chromosome
+        "paired_fraction": rng.choice([0.0, 0.0, 0.4]),
+        "prephased": rng.random() < 0.25,           # input VCF already carries | genotypes and PS
+        "missing_gt": rng.random() < 0.2,           # a few ./. calls
+        # quartet only: all-heterozygous sites, connected only by dedicated read pairs, interleaved with the
+        # pedigree-phased sites; one child recombines after them
+        "interleave": False,
     }
     if rng.random() < 0.06:
         spec["all_hom_chrom"] = rng.randrange(spec["nchrom"])
+    spec.update({k: v for k, v in force.items() if k not in ("structure", "nchrom")})
+    if spec["interleave"]:
+        spec["nvars"] = max(spec["nvars"], 8)
+        spec["all_hom_chrom"] = None
     return spec
 
 
@@ -51,7 +89,10 @@ def make_options(rng, spec, lists, distrust, ped):
     o = {"reads": bool(lists[0]), "gts": bool(lists[1]), "recs": bool(lists[2]), "distrust": bool(distrust),
          "ped": bool(ped), "include_homozygous": bool(distrust and rng.random() < 0.6),
          "recombrate": rng.choice([1.26, 10000, 300000, 1000000, 1000000]), "genmap": False, "chromosomes": None,
-         "no_genetic_haplotyping": rng.random() < 0.5}
+         "no_genetic_haplotyping": rng.random() < 0.5,
+         "samples": None, "use_ped_samples": False, "tag_hp": rng.random() < 0.1,
+         "only_snvs": rng.random() < 0.1, "algorithm": "heuristic" if (not ped and rng.random() < 0.15) else "whatshap",
+         "max_coverage": rng.choice([15, 15, 15, 6, 20])}
     nchrom = spec["nchrom"]
     x = rng.random()
     if ped and x < 0.2:
@@ -60,38 +101,39 @@ def make_options(rng, spec, lists, distrust, ped):
     elif nchrom > 1 and x < 0.4:
         k = rng.randint(1, nchrom - 1)
         o["chromosomes"] = sorted(rng.sample(range(nchrom), k))
+    nsamples = len(ROLES[spec["structure"]][0])
+    y = rng.random()
+    if y < 0.15 and nsamples > 2:               # --sample: only some of the VCF's samples are phased
+        o["samples"] = sorted(rng.sample(range(nsamples), rng.randint(1, nsamples - 1)))
+    elif y < 0.25 and ped and ROLES[spec["structure"]][1] and not spec.get("ped_extra"):
+        o["use_ped_samples"] = True
+    if spec.get("interleave"):
+        o.update(no_genetic_haplotyping=False, samples=None, algorithm="whatshap", genmap=False,
+                 chromosomes=None if o["genmap"] else o["chromosomes"])
     return o
 
 
-def family_layout(structure, rng):
-    """-> (samples in VCF order, trios [(child, father, mother)])"""
-    if structure == "two_trios":
-        names = ["K1", "F1", "M1", "K2", "F2", "M2"]
-        trios = [("K1", "F1", "M1"), ("K2", "F2", "M2")]
-    elif structure == "trio_single":
-        names = ["K1", "F1", "M1", "U1"]
-        trios = [("K1", "F1", "M1")]
-    elif structure == "trio_single_first":
-        names = ["A0", "K1", "F1", "M1"]       # the unrelated sample sorts (and is processed) first
-        trios = [("K1", "F1", "M1")]
-    elif structure == "quartet_single":
-        names = ["K1", "K2", "F1", "M1", "U1"]
-        trios = [("K1", "F1", "M1"), ("K2", "F1", "M1")]
-    elif structure == "quartet":
-        names = ["K1", "K2", "F1", "M1"]
-        trios = [("K1", "F1", "M1"), ("K2", "F1", "M1")]
+def family_layout(spec, rng):
+    """-> (samples in VCF order, trios [(child, father, mother)]) with the scenario's sample names"""
+    roles, trios = ROLES[spec["structure"]]
+    if spec.get("names", "role") == "role":
+        ren = {r: r for r in roles}
     else:
-        raise ValueError(structure)
-    order = list(names)
+        pool = list(rng.choice(NAME_POOLS))
+        rng.shuffle(pool)
+        ren = dict(zip(roles, pool))
+    order = [ren[r] for r in roles]
     rng.shuffle(order)
-    return order, trios
+    return order, [(ren[c], ren[f], ren[m]) for c, f, m in trios]
 
 
-def write_vcf(sc, path, gt_override, gl, odd_records, rng):
+def write_vcf(sc, path, gt_override, gl, odd_records, rng, prephased=False, missing=()):
     """Unphased VCF of the true genotypes with some deliberately wrong calls (gt_override) and optionally GL.
     odd_records: additionally a multi-allelic record, a record without ALT and a duplicated position
-    (all of which `whatshap phase` must leave alone)."""
+    (all of which `whatshap phase` must leave alone). prephased: heterozygous calls of some samples are written
+    as a|b with a PS value (stale phase information that must be replaced). missing: {(sample, chrom, i)} -> ./."""
     lines = synth.vcf_header(sc, gl=gl)
+    fmt = "GT" + (":PS" if prephased else "") + (":GL" if gl else "")
     for c in sc.chroms:
         rows = []
         for i, v in enumerate(sc.variants[c]):
@@ -100,13 +142,21 @@ def write_vcf(sc, path, gt_override, gl, odd_records, rng):
                 a, b = sc.haps[s][c][i]
                 lo, hi = sorted((a, b))
                 gt = gt_override.get((s, c, i), f"{lo}/{hi}")
+                idx = {"0/0": 0, "0/1": 1, "1/1": 2}[gt]
+                ps = "."
+                if (s, c, i) in missing:
+                    gt = "./."
+                elif prephased and gt == "0/1" and rng.random() < 0.6:
+                    gt = rng.choice(["0|1", "1|0"])
+                    ps = str(sc.variants[c][0].pos + 1 + rng.choice([0, 0, 7]))
+                if prephased:
+                    gt += ":" + ps
                 if gl:
-                    idx = {"0/0": 0, "0/1": 1, "1/1": 2}[gt]
                     vals = [-(rng.choice([1.0, 2.0, 3.0, 4.5]))] * 3
                     vals[idx] = 0.0
-                    gt += ":" + ",".join(f"{x:g}" for x in vals)
+                    gt += ":" + (",".join(f"{x:g}" for x in vals) if (s, c, i) not in missing else ".")
                 calls.append(gt)
-            rows.append((v.pos, f"{c}\t{v.pos + 1}\t.\t{v.ref}\t{v.alt}\t.\tPASS\t.\t{'GT:GL' if gl else 'GT'}\t" + "\t".join(calls)))
+            rows.append((v.pos, f"{c}\t{v.pos + 1}\t.\t{v.ref}\t{v.alt}\t.\tPASS\t.\t{fmt}\t" + "\t".join(calls)))
         if odd_records and sc.variants[c]:
             ref = sc.ref[c]
             vs = sc.variants[c]
@@ -127,44 +177,150 @@ def write_vcf(sc, path, gt_override, gl, odd_records, rng):
         f.write("\n".join(lines) + "\n")
 
 
+def apply_interleave(rng, sc, trios, c):
+    """Quartet on chromosome c: at the 'genetic' sites the father is heterozygous and the mother homozygous, both
+    children inherit the same paternal haplotype up to a late site r and different ones from r on (one
+    recombination, forced by the genotypes); two sites h1 < h2 < r in between are heterozygous in all four
+    individuals. Returns (father, (h1, h2)) or None if the chromosome is too short."""
+    (k1, fa, mo), (k2, _, _) = trios[0], trios[1]
+    n = len(sc.variants[c])
+    if n < 7:
+        return None
+    h1, h2 = sorted(rng.sample(range(2, n - 2), 2))
+    r = rng.randint(h2 + 1, n - 1)
+    p = rng.randint(0, 1)
+    fh, mh, c1, c2 = [], [], [], []
+    for i in range(n):
+        f = rng.choice([(0, 1), (1, 0)])
+        pf1 = p
+        pf2 = p if i < r else 1 - p
+        if i in (h1, h2):
+            m = (1 - f[pf1], f[pf1])          # the maternal allele (hap 0) complements the paternal one
+        else:
+            m = rng.choice([(0, 0), (0, 0), (1, 1)])
+        fh.append(f)
+        mh.append(m)
+        c1.append((f[pf1], m[0]))
+        c2.append((f[pf2], m[0]))
+    sc.haps[fa][c], sc.haps[mo][c], sc.haps[k1][c], sc.haps[k2][c] = fh, mh, c1, c2
+    return fa, (h1, h2)
+
+
+def pair_reads(rng, sc, sample, c, i1, i2, n, prefix):
+    """n read pairs of `sample` whose mates cover variant i1 and variant i2 of chromosome c and nothing else"""
+    vs = sc.variants[c]
+    out = []
+    for k in range(n):
+        h = k % 2
+        alleles = [x[h] for x in sc.haps[sample][c]]
+        mates = []
+        for i in (i1, i2):
+            v = vs[i]
+            s = v.pos - rng.randint(8, 12)
+            e = v.pos + len(v.ref) + rng.randint(8, 12)
+            seq, cig = synth.hap_walk(sc.ref[c], vs, alleles, s, e)
+            mates.append((s, seq, cig))
+        (s1, q1, g1), (s2, q2, g2) = mates
+        name = f"{prefix}{k}"
+        out.append(dict(name=name, sample=sample, chrom=c, start=s1, cigar=g1, seq=q1, qual=30, hap=h,
+                        flag=0x1 | 0x2 | 0x40 | 0x20, mate_start=s2))
+        out.append(dict(name=name, sample=sample, chrom=c, start=s2, cigar=g2, seq=q2, qual=30, hap=h,
+                        flag=0x1 | 0x2 | 0x80 | 0x10, mate_start=s1))
+    return out
+
+
 def build_scenario(spec, wd):
     import random
     rng = random.Random(spec["seed"])
-    samples, trios = family_layout(spec["structure"], rng)
+    samples, trios = family_layout(spec, rng)
+    chrom_names = None
+    if spec.get("names", "role") != "role":
+        chrom_names = list(CHROM_POOLS[spec.get("chrom_pool", 0)])[:spec["nchrom"]]
     sc = synth.make_scenario(rng, nchrom=spec["nchrom"], nsamples=len(samples), nvars=spec["nvars"],
-                             kinds=tuple(spec["kinds"]), sample_names=samples, het_fraction=0.75, min_gap=25)
+                             kinds=tuple(spec["kinds"]), sample_names=samples, het_fraction=0.75, min_gap=25,
+                             chrom_names=chrom_names)
     for ch, fa, mo in trios:
         for c in sc.chroms:
             child, _ = synth.inherit(rng, sc.haps[fa][c], sc.haps[mo][c], recomb_prob=spec["recomb_prob"])
             sc.haps[ch][c] = child
+    interleaved = {}
+    if spec.get("interleave") and len(trios) == 2 and trios[0][1:] == trios[1][1:]:
+        for c in sc.chroms:
+            if rng.random() < 0.8 or not interleaved:
+                r = apply_interleave(rng, sc, trios, c)
+                if r:
+                    interleaved[c] = r
     if spec.get("all_hom_chrom") is not None:
         c = sc.chroms[spec["all_hom_chrom"]]
         for s in samples:
             sc.haps[s][c] = [(1, 1)] * len(sc.variants[c])
     ov = {}
-    for s in samples:
+    family_members = {x for t in trios for x in t}
+    for c in sc.chroms:
+        if spec.get("all_hom_chrom") == sc.chroms.index(c):
+            continue
+        for i in range(len(sc.variants[c])):
+            wrong = [s for s in samples if rng.random() < spec["gt_error"]]
+            if rng.random() < spec.get("multi_change", 0.0):
+                wrong = list(set(wrong) | set(rng.sample(samples, min(len(samples), rng.randint(2, 3)))))
+            if c in interleaved:
+                wrong = [s for s in wrong if s not in family_members]
+            for s in wrong:
+                lo, hi = sorted(sc.haps[s][c][i])
+                ov[(s, c, i)] = rng.choice([g for g in ("0/0", "0/1", "1/1") if g != f"{lo}/{hi}"])
+    missing = set()
+    if spec.get("missing_gt"):
         for c in sc.chroms:
+            if c in interleaved:
+                continue
             for i in range(len(sc.variants[c])):
-                if rng.random() < spec["gt_error"] and spec.get("all_hom_chrom") != sc.chroms.index(c):
-                    lo, hi = sorted(sc.haps[s][c][i])
-                    ov[(s, c, i)] = rng.choice([g for g in ("0/0", "0/1", "1/1") if g != f"{lo}/{hi}"])
+                if rng.random() < 0.12:
+                    missing.add((rng.choice(samples), c, i))
     os.makedirs(wd, exist_ok=True)
     synth.write_fasta(sc, os.path.join(wd, "ref.fa"))
-    write_vcf(sc, os.path.join(wd, "in.vcf"), ov, spec["gl"], spec["odd_records"], rng)
+    write_vcf(sc, os.path.join(wd, "in.vcf"), ov, spec["gl"], spec["odd_records"], rng,
+              prephased=spec.get("prephased", False), missing=missing)
     reads = []
+    member_index = {s: 0 for s in samples}
+    for t in trios:
+        for s in t:
+            member_index[s] = sorted({x for u in trios for x in u if set(u) & set(t) or True}).index(s)
     for s in samples:
-        for c in sc.chroms:
-            rs = synth.simulate_reads(rng, sc, s, c, spec["nreads"], len_range=tuple(spec.get("read_len", (120, 380))))
+        for ci, c in enumerate(sc.chroms):
+            # the same read names in every chromosome and in every family (but distinct within a family:
+            # whatshap keys reads by (name, file) when it merges the read sets of a family)
+            prefix = f"r{member_index[s]}_" if spec.get("shared_read_names") else None
+            if c in interleaved and s in family_members:
+                fa, (h1, h2) = interleaved[c]
+                if s == fa or rng.random() < 0.3:
+                    reads += pair_reads(rng, sc, s, c, h1, h2, rng.randint(4, 8), prefix or f"{s}_{c}_p")
+                continue
+            rs = synth.simulate_reads(rng, sc, s, c, spec["nreads"], len_range=tuple(spec.get("read_len", (120, 380))),
+                                      name_prefix=prefix, paired_fraction=spec.get("paired_fraction", 0.0))
             vs = sc.variants[c]
             if spec.get("gap") and len(vs) >= 4:
                 g = len(vs) // 2
                 lo, hi = vs[g - 1].pos, vs[g].pos
                 rs = [r for r in rs if not (r["start"] <= lo and r["start"] + sum(n for o, n in r["cigar"] if o in "MD") > hi)]
             reads += rs
-    synth.write_bam(sc, reads, os.path.join(wd, "reads.bam"))
+    bams = ["reads.bam"]
+    if spec.get("two_bams"):
+        bams = ["reads.bam", "reads2.bam"]
+        part = [[], []]
+        for r in reads:
+            part[hash_name(r["name"], r["sample"]) % 2].append(r)
+        for b, rs in zip(bams, part):
+            synth.write_bam(sc, rs, os.path.join(wd, b))
+    else:
+        synth.write_bam(sc, reads, os.path.join(wd, "reads.bam"))
+    sc.bams = bams
+    lines = [f"FAM{k}\t{ch}\t{fa}\t{mo}\t0\t1\n" for k, (ch, fa, mo) in enumerate(trios)]
+    if spec.get("ped_shuffle"):
+        rng.shuffle(lines)
+    if spec.get("ped_extra") or not lines:
+        lines.insert(rng.randint(0, len(lines)), "FAMX\tghost_child\tghost_father\tghost_mother\t0\t1\n")
     with open(os.path.join(wd, "fam.ped"), "w") as f:
-        for k, (ch, fa, mo) in enumerate(trios):
-            f.write(f"FAM{k}\t{ch}\t{fa}\t{mo}\t0\t1\n")
+        f.writelines(lines)
     # a genetic map with cheap recombination (used with --genmap on a single chromosome)
     L = max(len(r) for r in sc.ref.values())
     with open(os.path.join(wd, "gen.map"), "w") as f:
@@ -174,6 +330,12 @@ def build_scenario(spec, wd):
             f.write(f"{p} 1.0 {cum:.4f}\n")
             cum += rng.choice([0.5, 3.0, 9.0])
     return sc, trios
+
+
+def hash_name(name, sample):
+    """stable (PYTHONHASHSEED independent) split of read pairs over the BAM files: mates stay together"""
+    import zlib
+    return zlib.crc32((name + "/" + sample).encode())
 
 
 # ---------------------------------------------------------------------------------------- running
@@ -187,6 +349,8 @@ def phase_args(wd, sc, opt, tag, chromosomes="opt"):
             a += ["--recombrate", str(opt["recombrate"])]
         if opt["no_genetic_haplotyping"]:
             a += ["--no-genetic-haplotyping"]
+        if opt.get("use_ped_samples"):
+            a += ["--use-ped-samples"]
     if opt["distrust"]:
         a += ["--distrust-genotypes"]
         if opt["include_homozygous"]:
@@ -197,11 +361,22 @@ def phase_args(wd, sc, opt, tag, chromosomes="opt"):
         a += ["--changed-genotype-list", os.path.join(wd, f"gts.{tag}.tsv")]
     if opt["recs"]:
         a += ["--recombination-list", os.path.join(wd, f"recs.{tag}.txt")]
+    if opt.get("samples") is not None and not opt.get("use_ped_samples"):
+        for k in opt["samples"]:
+            a += ["--sample", sc.samples[k]]
+    if opt.get("tag_hp"):
+        a += ["--tag", "HP"]
+    if opt.get("only_snvs"):
+        a += ["--only-snvs"]
+    if opt.get("algorithm", "whatshap") != "whatshap":
+        a += ["--algorithm", opt["algorithm"]]
+    if opt.get("max_coverage", 15) != 15:
+        a += ["--internal-downsampling", str(opt["max_coverage"])]
     chroms = opt["chromosomes"] if chromosomes == "opt" else chromosomes
     if chroms is not None:
         for k in chroms:
             a += ["--chromosome", sc.chroms[k]]
-    a += [os.path.join(wd, "in.vcf"), os.path.join(wd, "reads.bam")]
+    a += [os.path.join(wd, "in.vcf")] + [os.path.join(wd, b) for b in getattr(sc, "bams", ["reads.bam"])]
     return a
 
 
